@@ -207,6 +207,9 @@ impl Prog {
         if self.entry == "seq" {
             return "call_sequence".to_string();
         }
+        if self.entry == "rand_algo" {
+            return "generated_structure".to_string();
+        }
         let shape = if self.shape.contiguous() { "contiguous" } else { self.shape.tag() };
         let arg = if self.x.in_range() && self.y.in_range() { "in_range".to_string() } else { format!("x={},y={}", self.x.tag(), self.y.tag()) };
         let cb = if self.cb > 0 { ",callback_panic" } else { "" };
@@ -359,13 +362,16 @@ pub const ENTRIES: &[Entry] = &[
     e!("prng", &[L], Args::None),
     // generated call sequences: (x, y, cb, t) only encode the sequence's seed
     e!("seq", UNW, Args::XY),
+    // generated digraph structures (DAGs, several strong components, long chains, stars, layers, unreachable
+    // parts, negative and zero weights) under the traversals and algorithms: (x, y, cb, t) encode the seed
+    e!("rand_algo", ALL, Args::XY),
 ];
 
 /// The complete catalogue, in a fixed order.
 pub fn catalogue() -> Vec<Prog> {
     let mut out = Vec::new();
     for en in ENTRIES {
-        if en.name == "seq" {
+        if en.name == "seq" || en.name == "rand_algo" {
             for &repr in en.reprs {
                 for &x in &IDS {
                     for &y in &IDS {
@@ -424,7 +430,7 @@ pub fn catalogue() -> Vec<Prog> {
 /// the ones that can be expected to return normally whatever the tree looks like.
 pub fn is_safe_subset(p: &Prog) -> bool {
     let gen = ENTRIES.iter().find(|e| e.name == p.entry).is_some_and(|e| e.args == Args::Gen);
-    (gen || (p.x.in_range() && p.y.in_range())) && p.cb == 0 && p.shape.contiguous() && !p.entry.contains("huge") && p.entry != "seq"
+    (gen || (p.x.in_range() && p.y.in_range())) && p.cb == 0 && p.shape.contiguous() && !p.entry.contains("huge") && p.entry != "seq" && p.entry != "rand_algo"
 }
 
 pub fn find(name: &str) -> Option<Prog> {
@@ -1197,6 +1203,11 @@ pub fn body(p: &Prog) -> u64 {
             let yi = IDS.iter().position(|i| *i == p.y).unwrap() as u64;
             seq::run(p.repr, ((xi * 6 + yi) * 3 + u64::from(p.cb)) * 5 + u64::from(p.t))
         }
+        "rand_algo" => {
+            let xi = IDS.iter().position(|i| *i == p.x).unwrap() as u64;
+            let yi = IDS.iter().position(|i| *i == p.y).unwrap() as u64;
+            rnd::run(p.repr, ((xi * 6 + yi) * 3 + u64::from(p.cb)) * 5 + u64::from(p.t))
+        }
         "prng" => {
             let mut r = Xoshiro256StarStar::new(42);
             let dflt = Xoshiro256StarStar::default();
@@ -1547,5 +1558,244 @@ pub mod seq {
         fn from(v: EdgeList) -> Self {
             G::E(v)
         }
+    }
+}
+
+// ------------------------------------------------------------------ generated structures under the algorithms
+
+/// The fixed shapes above are small and regular. The algorithms' unchecked indexing depends on
+/// *structure* - the number of strong components, the length of predecessor chains, frontier width,
+/// unreachable vertices, zero and negative weights - so this family draws a structure per seed and runs
+/// every traversal and algorithm the representation supports, from in-range sources.
+pub mod rnd {
+    use super::*;
+    use vmodel::gen::{random_dg, random_tournament};
+    use vmodel::rng::Rng;
+
+    pub fn structure(rng: &mut Rng) -> Dg {
+        let n = match rng.below(8) {
+            0 => rng.range(25, 70),
+            1 => rng.range(1, 3),
+            _ => rng.range(3, 24),
+        };
+        match rng.below(10) {
+            0 => {
+                let p = rng.range(40, 300);
+                random_dg(rng, n.min(24), p)
+            }
+            1 => {
+                let p = rng.range(500, 1000);
+                random_dg(rng, n.min(12), p)
+            }
+            2 => {
+                // acyclic: arcs only from lower to higher ids, plus one long chain
+                let mut d = Dg::empty(n);
+                let p = rng.range(30, 400);
+                for u in 0..n {
+                    for w in (u + 1)..n {
+                        if w == u + 1 && rng.chance(3, 4) || rng.below(1000) < p && n <= 24 {
+                            let _ = d.a.insert((u, w));
+                        }
+                    }
+                }
+                d
+            }
+            3 => {
+                // k directed cycles (strong components of drawn sizes) joined by forward or backward bridges
+                let mut d = Dg::empty(n);
+                let mut start = 0;
+                let mut heads = Vec::new();
+                while start < n {
+                    let len = rng.range(1, (n - start).min(9));
+                    for i in 0..len {
+                        if len > 1 {
+                            let _ = d.a.insert((start + i, start + (i + 1) % len));
+                        }
+                    }
+                    heads.push(start);
+                    start += len;
+                }
+                for w in heads.windows(2) {
+                    if rng.chance(3, 4) {
+                        let (a, b) = if rng.chance(1, 2) { (w[0], w[1]) } else { (w[1], w[0]) };
+                        let _ = d.a.insert((a, b));
+                    }
+                }
+                d
+            }
+            4 => match rng.below(4) {
+                0 => Dg::path(n),
+                1 => Dg::cycle(n.max(2)),
+                2 => Dg::circuit(n.max(2)),
+                _ => Dg::path(n).converse(),
+            },
+            5 => match rng.below(3) {
+                0 => Dg::star(n.max(2)),
+                1 => Dg::wheel(n.clamp(4, 24)),
+                _ => {
+                    // every vertex points at the last one
+                    let mut d = Dg::empty(n);
+                    for u in 0..n.saturating_sub(1) {
+                        let _ = d.a.insert((u, n - 1));
+                    }
+                    d
+                }
+            },
+            6 => {
+                // the second half cannot be reached from the first, and vertex n-1 is isolated
+                let mut d = Dg::empty(n);
+                let h = n / 2;
+                for u in 0..h {
+                    for w in 0..h {
+                        if u != w && rng.chance(1, 3) {
+                            let _ = d.a.insert((u, w));
+                        }
+                    }
+                }
+                for u in h..n.saturating_sub(1) {
+                    for w in h..n.saturating_sub(1) {
+                        if u != w && rng.chance(1, 3) {
+                            let _ = d.a.insert((u, w));
+                        }
+                    }
+                }
+                d
+            }
+            7 => random_tournament(rng, n.min(10)),
+            8 => {
+                // layers: every vertex of a layer points at every vertex of the next (wide frontiers)
+                let n = n.min(24);
+                let mut d = Dg::empty(n);
+                let w = rng.range(1, 6);
+                for u in 0..n {
+                    for v in 0..n {
+                        if v / w == u / w + 1 {
+                            let _ = d.a.insert((u, v));
+                        }
+                    }
+                }
+                if rng.chance(1, 2) && n > 1 {
+                    let _ = d.a.insert((n - 1, 0));
+                }
+                d
+            }
+            _ => Dg::empty(n),
+        }
+    }
+
+    fn sources(rng: &mut Rng, n: usize) -> Vec<usize> {
+        let k = match rng.below(6) {
+            0 => 0,
+            1 | 2 | 3 => 1,
+            4 => 2,
+            _ => n.min(5),
+        };
+        (0..k).map(|_| if rng.chance(1, 5) { n - 1 } else { rng.below(n) }).collect()
+    }
+
+    macro_rules! unweighted_terminal {
+        ($g:expr, $rng:expr, $n:expr) => {{
+            let g = $g;
+            let n = $n;
+            let mut acc = 0usize;
+            for _ in 0..3 {
+                let src = sources($rng, n);
+                let (x, y) = ($rng.below(n), $rng.below(n));
+                acc += match $rng.below(12) {
+                    0 => Bfs::new(g, src.into_iter()).count(),
+                    1 => BfsDist::new(g, src.into_iter()).distances().len(),
+                    2 => BfsPred::new(g, src.into_iter()).shortest_path(|w| w == y).map_or(0, |p| p.len()),
+                    3 => BfsPred::new(g, src.into_iter()).cycles().len(),
+                    4 => {
+                        let t = BfsPred::new(g, src.into_iter()).predecessors();
+                        t.search(x, y).map_or(0, |p| p.len()) + t.search_by(x, |&v, _| v == y).map_or(0, |p| p.len())
+                    }
+                    5 => Dfs::new(g, src.into_iter()).count(),
+                    6 => DfsDist::new(g, src.into_iter()).map(|(_, d)| d).sum::<usize>(),
+                    7 => {
+                        let t = DfsPred::new(g, src.into_iter()).predecessors();
+                        t.search(y, x).map_or(0, |p| p.len())
+                    }
+                    8 => BfsDist::new(g, src.into_iter()).map(|(_, d)| d).sum::<usize>(),
+                    9 => DfsPred::new(g, src.into_iter()).count() + BfsPred::new(g, [x, y].into_iter()).count(),
+                    10 => g.has_walk(&[x, y, x]) as usize + g.in_neighbors(x).count() + g.degree_sequence().sum::<usize>(),
+                    _ => g.sinks().count() + g.sources().count() + g.max_degree() + g.min_indegree(),
+                };
+            }
+            acc
+        }};
+    }
+
+    /// Run structure `seed` on representation `repr`; returns a summary value.
+    pub fn run(repr: Repr, seed: u64) -> u64 {
+        let mut rng = Rng::new(0xA190_0000 ^ seed.wrapping_mul(0x9E37_79B9));
+        let d = structure(&mut rng);
+        let n = d.order();
+        let small_cyclic = n <= 9 && d.size() <= 20;
+        let acc = match repr {
+            L => {
+                let g = AdjacencyList::from(d.rows());
+                unweighted_terminal!(&g, &mut rng, n) + Tarjan::new(&g).components().len()
+            }
+            M => {
+                let mut g = AdjacencyMap::empty(n);
+                for &(u, v) in &d.a {
+                    g.add_arc(u, v);
+                }
+                let j = if small_cyclic { Johnson75::new(&g).circuits().len() } else { 0 };
+                unweighted_terminal!(&g, &mut rng, n) + Tarjan::new(&g).components().len() + j
+            }
+            X => {
+                let mut g = AdjacencyMatrix::empty(n);
+                for &(u, v) in &d.a {
+                    g.add_arc(u, v);
+                }
+                unweighted_terminal!(&g, &mut rng, n) + Tarjan::new(&g).components().len()
+            }
+            E => {
+                let mut g = EdgeList::empty(n);
+                for &(u, v) in &d.a {
+                    g.add_arc(u, v);
+                }
+                unweighted_terminal!(&g, &mut rng, n) + Tarjan::new(&g).components().len()
+            }
+            WI => {
+                // weights in -2..=9: some seeds have negative arcs without, some with a negative circuit
+                let lo = if rng.chance(1, 2) { 0 } else { 2 + rng.below(2) };
+                let mut g = AdjacencyListWeighted::<isize>::empty(n);
+                for &(u, v) in &d.a {
+                    g.add_arc_weighted(u, v, rng.below(10 + lo) as isize - lo as isize);
+                }
+                let x = rng.below(n);
+                let mut acc = unweighted_terminal!(&g, &mut rng, n);
+                acc += BellmanFordMoore::new(&g, x).distances().map_or(0, <[isize]>::len);
+                if lo == 0 && n <= 24 {
+                    let mut fw = FloydWarshall::new(&g);
+                    let m = fw.distances();
+                    acc += m.center().len() + m.periphery().count() + m.eccentricities().count() + m.is_connected() as usize + (*m.diameter() != 0) as usize;
+                }
+                acc
+            }
+            WU => {
+                let mut g = AdjacencyListWeighted::<usize>::empty(n);
+                for &(u, v) in &d.a {
+                    g.add_arc_weighted(u, v, rng.below(9));
+                }
+                let mut acc = unweighted_terminal!(&g, &mut rng, n);
+                for _ in 0..2 {
+                    let src = sources(&mut rng, n);
+                    let y = rng.below(n);
+                    acc += match rng.below(5) {
+                        0 => Dijkstra::new(&g, src.into_iter()).count(),
+                        1 => DijkstraDist::new(&g, src.into_iter()).distances().len(),
+                        2 => DijkstraPred::new(&g, src.into_iter()).shortest_path(|v| v == y).map_or(0, |w| w.len()),
+                        3 => DijkstraPred::new(&g, src.into_iter()).predecessors().search(y, 0).map_or(0, |w| w.len()),
+                        _ => DijkstraDist::new(&g, src.into_iter()).map(|(_, d)| d).sum::<usize>() + DijkstraPred::new(&g, [y].into_iter()).count(),
+                    };
+                }
+                acc
+            }
+        };
+        acc as u64
     }
 }
